@@ -80,11 +80,12 @@ VARS = {'a': 0, 'b': 1, 'c': 2, 'x': 3}
 
 LEAVES = ([('var', 'a'), ('var', 'b'), ('var', 'c')]
           + [('lit', U.I(n)) for n in (0, 1, 2, -1, 3)]
-          + [('lit', U.R(x)) for x in (0.5, 2.5, -1.5)])
+          + [('lit', U.R(x)) for x in (0.5, 2.5, -1.5)]
+          + [('lit', U.L())])              # the literal [] (a float-kind empty tensor under torch)
 IDX = [('lit', U.I(0)), ('lit', U.I(1)), ('lit', U.I(-1)),
        ('lit', U.from_py([0, 1])), ('lit', U.from_py([1, 0, 1]))]
-TAKES = [1, 2, -1, -2, 3]
-DROPS = [1, 2, -1, -2, 0]
+TAKES = [1, 2, -1, -2, 3, 0]
+DROPS = [1, 2, -1, -2, 0, 4, -4]
 
 BIND = dict(
     int_scalar=[U.I(n) for n in (0, 1, 2, 3, 5, -3, 7, 17)],
@@ -95,6 +96,7 @@ BIND = dict(
                                        [[1], [2], [3]], [[1, 2, 3]])],
     real_matrix=[U.from_py(v) for v in ([[0.5, 1.5], [2.5, 3.5]], [[1.5, -2.5, 0.25], [4.0, 0.5, 2.0]])],
     int_rank3=[U.from_py([[[1, 2], [3, 4]], [[5, 6], [7, 8]]])],
+    empty=[U.L()],
 )
 BKINDS = list(BIND)
 
@@ -652,11 +654,27 @@ class Searcher:
                 n *= d
             if n == 0 and gk == 'empty':
                 return                       # the canonical form of an empty array keeps no inner shape
+            if kind == 'int' and gk == 'real' and vshape(got) == shape and any(
+                    l[0] == 'r' and (math.isinf(l[1]) or math.isnan(l[1]) or abs(l[1]) >= 2.0 ** 63)
+                    for l in leaves(got)):
+                ctx.bump("model:floor-of-a-real-no-integer-can-hold")   # base.floor_to_int keeps it real
+                return
             if vshape(got) != shape or (gk not in (kind, 'empty')):
                 ctx.mismatch(where, case, mres, f"kind={gk} shape={vshape(got)} value={_show(got)}")
 
     # -- one program
     def one(self, e, env, mode, label="program"):
+        try:
+            self._one(e, env, mode, label)
+        except common.Infra:
+            raise
+        except Exception as ex:  # an exception of the harness itself while judging what the real
+            # code produced is a broken tie with this case as replay — never exit 2
+            self.ctx.mismatch("harness: could not judge the outcome", dict(
+                kind=label, mode=mode, expr=to_json(e), env={n: U.to_wire(v) for n, v in env.items()}),
+                "", f"{type(ex).__name__}: {ex}")
+
+    def _one(self, e, env, mode, label="program"):
         ctx = self.ctx
         case = dict(kind=label, mode=mode, program=src(e if mode == 'var' else subst(e, env)),
                     expr=to_json(e), env={n: U.to_wire(v) for n, v in env.items()})
@@ -966,6 +984,72 @@ def acceptance(ctx, pair):
                                 "an IR the expression compiler emits is not accepted by the backend's code generator")
 
 
+# --------------------------------------------------------------------------- structural dyads x empty operands
+
+SWEEP_SETUP = ["a::[1 2 3 4]", "b::[1.5 2.5 0.5 4.0]", "mm::[[1 2 3] [4 5 6]]", "e::[]", "s::7",
+               "f::{:[#x;(2#x),f(2_x);[]]}"]
+# empty lists of every provenance (their dtype differs: [] is float, 0#a integer, a@[] a numpy array …)
+SWEEP_EMPTY = ["[]", "e", "0#a", "1_[5]", "{x}'[]", "(-1)_[7]", "0#b", "a@[]", "&0", "!0", "f([])", "4_a"]
+SWEEP_FULL = ["a", "b", "mm", "s", "[5]", "2.5", "f(a)"]
+SWEEP_TEMPLATES = ["({P}),({Q})", "(2)#({Q})", "(0)#({Q})", "(-2)#({Q})", "(1)_({Q})", "(-1)_({Q})",
+                   "(1):+({Q})", "(-1):+({Q})", "([2]):^({Q})", "(2):^({Q})", "(0):^({Q})", "({P}):^({Q})",
+                   "(1):_({Q})", "({P}):_({Q})", "({Q})@({P})", "({Q})?({P})", "|({Q})", "({P})+({Q})",
+                   "({P})=({Q})", "({P})&({Q})", "-({Q})", "_({Q})", "+/({Q})", "+\\({Q})", "{x+1}'({Q})",
+                   "(2):#({Q})", "f(({P}),({Q}))"]
+SWEEP_CONSUMERS = ["{S}", "+/({S})", "|({S})", "#({S})", "({S})+1", "({S}),1", "*({S})", "({S})@0"]
+
+
+def structural_programs():
+    ops = [(x, 'E') for x in SWEEP_EMPTY] + [(x, 'F') for x in SWEEP_FULL]
+    for t in SWEEP_TEMPLATES:
+        for (p, pk) in ops:
+            if '{P}' not in t and (p, pk) != ops[0]:
+                continue
+            for (q, qk) in ops:
+                if pk == 'F' and qk == 'F':
+                    continue
+                base = t.replace("{P}", p).replace("{Q}", q)
+                for c in SWEEP_CONSUMERS:
+                    yield t, p, q, c, c.replace("{S}", base)
+
+
+def structural_one(ctx, pair, t, p, q, c, text, label="structural"):
+    """one text program of the sweep under both backends (oracle only: these verbs are not in
+    the Lean grammar)"""
+    case = dict(kind="structural", template=t, P=p, Q=q, consumer=c, program=text, setup=SWEEP_SETUP)
+    try:
+        a, b = pair.run(text)
+        ctx.count(("structural", text))
+        ctx.bump("structural:" + ("both-return" if a[0] == b[0] == 'ok' else
+                                  "both-raise" if a[0] == b[0] else "one-sided"))
+        if a[0] == 'ok' and b[0] == 'ok':
+            d = compare(a[1], b[1]) or text_compare(a[2], b[2])
+            if d:
+                sp, sq = pair.run1(pair.kn, p), pair.run1(pair.kn, q)
+                ctx.oracle_fail(f"structural:{t}:{sig(sp[1]) if sp[0] == 'ok' else 'err'},"
+                                f"{sig(sq[1]) if sq[0] == 'ok' else 'err'}:{d[0]}",
+                                case, f"numpy: {a[2]}", f"torch: {b[2]}",
+                                f"{d[0]}: {d[1]} (same program, both backends return)")
+    except Exception as ex:      # decoding what the real code produced must never stop the run
+        ctx.mismatch("harness: structural sweep could not judge the outcome", case, "", f"{type(ex).__name__}: {ex}")
+
+
+def structural_sweep(ctx, quick):
+    pair = Pair()                # fresh interpreters: the sweep has its own bindings
+    for st in SWEEP_SETUP:
+        pair.kn(st)
+        pair.kt(st)
+    progs = list(structural_programs())
+    if quick:
+        # every (template, P, Q) with a seeded choice of consumer
+        by = {}
+        for x in progs:
+            by.setdefault(x[:3], []).append(x)
+        progs = [ctx.rng.choice(v) for v in by.values()]
+    for t, p, q, c, text in progs:
+        structural_one(ctx, pair, t, p, q, c, text)
+
+
 # --------------------------------------------------------------------------- entry
 
 def run_witnesses(ctx, S):
@@ -1027,6 +1111,8 @@ def run(ctx):
                       label="corpus")
         # 1. the code generators accept everything the compiler emits
         acceptance(ctx, pair)
+        # 1b. structural dyads with empty operands of every provenance (kinds survive a Join)
+        structural_sweep(ctx, quick)
         # 2. hypothesis of the theorems: the library primitives, against real torch and numpy
         if drv is not None:
             bad = micro(ctx, drv, 40 if quick else 400)
@@ -1068,6 +1154,12 @@ def replay(ctx, case):
     try:
         if c.get("kind") == "ir":
             acceptance(ctx, pair)
+        elif c.get("kind") == "structural":
+            for st in c.get("setup", SWEEP_SETUP):
+                pair.kn(st)
+                pair.kt(st)
+            structural_one(ctx, pair, c["template"], c["P"], c["Q"], c["consumer"], c["program"])
+            print("replay:", c["program"], pair.run(c["program"]))
         elif "expr" in c:
             env = {n: U.from_wire(t) for n, t in c["env"].items()}
             e = from_json(c["expr"])
